@@ -338,6 +338,11 @@ theorem fingerprint_caches_flushed :
     ∀ r ∈ fingerprintMethods, ∀ k ∈ cacheKeysOf r.1 r.2.1 r.2.2, keepKeys.contains k = false := by decide +kernel
 
 open ChythonModel.Gen.C17 in
+/-- the same for the keys OBSERVED on a live molecule after calling the modelled entry points (whatever the
+    memoisation mechanism): none of them is in a keep-list -/
+theorem live_fingerprint_keys_not_kept : ∀ k ∈ liveCacheKeys, keepKeys.contains k = false := by decide +kernel
+
+open ChythonModel.Gen.C17 in
 /-- every entry point the model transcribes is still a method of the fingerprint classes -/
 theorem modelled_entry_points_exist :
     ∀ n ∈ ["linear_fingerprint", "linear_bit_set", "linear_hash_set", "_chains", "_fragments", "morgan_fingerprint",
